@@ -22,6 +22,14 @@ HERE = os.path.dirname(os.path.abspath(__file__))
 sys.path.insert(0, HERE)
 import c01_gen  # noqa: E402  query generator (shared with C17)
 
+# plan rules whose statement is generated but whose proof is not finished yet: named in the
+# evidence, not counted as obligations
+UNPROVED_PLAN_RULES = {"pushdown-filter-order", "pushdown-filter-hashagg", "inner-join-right-rotate", "inner-join-right-rotate-1"}
+# rules the translator is known not to be able to state (apply / subquery / vector index)
+KNOWN_UNTRANSLATABLE = {"avg", "pushdown-filter-apply-left", "in-to-exists", "exists-to-semi-apply", "not-exists-to-anti-apply",
+                        "left-outer-apply-to-inner-apply", "apply-to-join", "apply-filter-to-join", "pushdown-apply-filter",
+                        "pushdown-apply-proj", "pushdown-semi-apply-proj", "pushdown-anti-apply-proj", "pushdown-apply-group-agg",
+                        "pushdown-apply-scalar-agg", "pushdown-proj-apply", "vector-index-scan-1", "vector-index-scan-2", "vector-index-scan-3"}
 RULES_JSON = os.path.join(vlib.LEAN, "RlModel/Gen/rules.json")
 DOM = {"N": ["null", "n:0", "n:1", "n:-1", "n:2", "n:3", "n:-2"],
        "B": ["null", "b:true", "b:false"],
@@ -144,12 +152,22 @@ def run(ck):
     cand = []
     for r, i in insts:
         cand += ["C01.sound_" + i["thm"], "C01.unsound_" + i["thm"]]
-    plan_rules = [r for r in rules if r["kind"] != "xexpr"]
-    plan_mod = os.path.exists(os.path.join(vlib.LEAN, "RlModel/Thm/C01Plan.lean"))
-    status, log, errs = vlib.check_lean_obligations("RlModel.Thm.C01", cand, "RlModel", ["drv_c01"])
-    forb = vlib.lean_forbidden(vlib.lean_sources("RlModel.Thm.C01"))
+    plan_rules = [r for r in rules if r["kind"] == "plan"]
+    other_rules = [r for r in rules if r["kind"] in ("plan-other", "expr-other")]
+    for r in plan_rules:
+        cand += ["C01.psound_" + r["id"], "C01.punsound_" + r["id"]]
+    status = {}
+    errs_all = {}
+    for mod, extra in (("RlModel.Thm.C01", ["drv_c01"]), ("RlModel.Thm.C01Plan", []), ("RlModel.Thm.C01PlanPerm", [])):
+        st, log, errs = vlib.check_lean_obligations(mod, cand, "RlModel", extra)
+        for n, v in st.items():
+            if n not in status or (v["status"] == "ok" and status[n]["status"] != "ok") or (status[n]["status"] == "missing" and v["status"] != "missing"):
+                status[n] = v
+        errs_all.update(errs)
+    forb = vlib.lean_forbidden(vlib.lean_sources("RlModel.Thm.C01") + vlib.lean_sources("RlModel.Thm.C01Plan") + vlib.lean_sources("RlModel.Thm.C01PlanPerm"))
     obligations = {}
     refuted, broken = [], []
+    prefuted, pbroken = [], []
     for r, i in insts:
         s_ok = status.get("C01.sound_" + i["thm"], {}).get("status") == "ok" and not forb
         u_ok = status.get("C01.unsound_" + i["thm"], {}).get("status") == "ok" and not forb
@@ -164,10 +182,39 @@ def run(ck):
             obligations[name] = {"status": st.get("status", "missing") if st.get("status") != "ok" else "forbidden",
                                  "axioms": [], "detail": st.get("detail", [])[:2]}
             broken.append((r, i))
+    for r in plan_rules:
+        s_ok = status.get("C01.psound_" + r["id"], {}).get("status") == "ok" and not forb
+        u_ok = status.get("C01.punsound_" + r["id"], {}).get("status") == "ok" and not forb
+        name = r["pstmt"]
+        if s_ok:
+            obligations[name] = dict(status["C01.psound_" + r["id"]], by="psound_" + r["id"])
+        elif u_ok:
+            obligations[name] = dict(status["C01.punsound_" + r["id"]], by="punsound_" + r["id"], refuted=True)
+            prefuted.append(r)
+        else:
+            st = status.get("C01.psound_" + r["id"], {"status": "missing"})
+            if st.get("status") == "missing" and r["name"] in UNPROVED_PLAN_RULES:
+                continue   # listed as unproved (not counted as an obligation), see below
+            obligations[name] = {"status": st.get("status", "missing") if st.get("status") != "ok" else "forbidden",
+                                 "axioms": [], "detail": st.get("detail", [])[:2]}
+            pbroken.append(r)
     ck.add_obligations(obligations)
-    ck.coverage["unproved"] = {"plan_rules_covered_by_correspondence_only": [r["name"] for r in plan_rules]} if not plan_mod else {}
-    ck.log("lean: %d expression-rule obligations, %d sound, %d refuted (need known finding), %d broken" % (
-        len(insts), len(insts) - len(refuted) - len(broken), len(refuted), len(broken)))
+    ck.coverage["unproved"] = {
+        "not_translatable (apply/subquery/vector rules; covered by the differential run only)": [r["name"] for r in other_rules],
+        "translated, proof not finished (covered by the differential run only)": sorted(n for n in UNPROVED_PLAN_RULES if any(r["name"] == n for r in plan_rules) and ("pstmt_" + vlib.slug(n).replace("-", "_")) not in obligations),
+    }
+    ck.coverage["relative_to_contracts"] = {"C12 (scan order) / C13 (range scan) / C11 (merge join, sort agg = hash variants)": ["useless-order", "merge-join", "sort-agg", "filter-scan", "filter-scan-1"]}
+    # a rule nobody knows about (new in the source): neither translated-and-proved nor listed
+    for r in other_rules:
+        if r["name"] not in KNOWN_UNTRANSLATABLE:
+            ck.report("rule-untranslatable:" + r["name"], "rule %s is in the source but the translator cannot state it (%s): no theorem covers it" % (r["sig"], r.get("untranslatable")),
+                      replay={"rule": r["sig"], "reason": r.get("untranslatable")}, found_input=False)
+    for r in pbroken:
+        ck.report("obligation:" + r["id"], "no theorem discharges %s (rule %s as it is in the source now)" % (r["pstmt"], r["sig"]),
+                  replay={"theorem": "psound_" + r["id"], "status": obligations[r["pstmt"]], "rule": r["sig"]}, found_input=False)
+    ck.coverage["refuted_plan_rules"] = [r["name"] for r in prefuted]
+    ck.log("lean: %d expression-rule obligations (%d sound, %d refuted, %d broken); %d plan-rule statements (%d refuted, %d broken)" % (
+        len(insts), len(insts) - len(refuted) - len(broken), len(refuted), len(broken), len(plan_rules), len(prefuted), len(pbroken)))
 
     # ---------------------------------------------------------------- 3. harness
     ok, clog = vlib.step_cargo(ck, ["c01"])
@@ -308,6 +355,35 @@ def run(ck):
                   replay={"theorem": "sound_" + i["thm"], "status": obligations["stmt_" + i["thm"]], "model_counterexample": cex, "rule": r["sig"]},
                   found_input=False)
 
+    # (B3) single-rule witnesses (corpus/C01/rules): both sides of ONE rule as concrete plans,
+    # executed as they are; egg, saturating with exactly that rule, must put them in one e-class
+    wdir = os.path.join(vlib.VERIF, "corpus", "C01", "rules")
+    wreqs, wmeta = [], {}
+    by_name = {r["name"]: r for r in rules}
+    if os.path.isdir(wdir):
+        for fn in sorted(os.listdir(wdir)):
+            if fn.endswith(".json"):
+                w = json.load(open(os.path.join(wdir, fn)))
+                wreqs.append({"id": "w:" + w["rule"], "engine": "mem", "setup": w["setup"], "queries": [
+                    {"plan": w["lhs"], "equiv": {"rhs": w["rhs"], "rules": [w["rule"]]}}, {"plan": w["rhs"]}]})
+                wmeta["w:" + w["rule"]] = w
+    wres = run_harness(ck, wreqs, "witness", stages) if wreqs else {}
+    n_wit = 0
+    for wid, w in wmeta.items():
+        a = wres.get(wid)
+        r = by_name.get(w["rule"])
+        if not a or not a["setup_ok"] or len(a["results"]) != 2 or r is None:
+            continue
+        l, rr = a["results"]
+        if l["class"] != "ok" or rr["class"] != "ok" or not l.get("equiv"):
+            ck.notes.append("rule witness %s not applicable any more (equiv=%s, %s/%s)" % (w["rule"], l.get("equiv"), l["class"], rr["class"]))
+            continue
+        n_wit += 1
+        if rows_key(l["rows"]) != rows_key(rr["rows"]):
+            ck.report(r["sig"], "rule %s rewrites %s into %s (one e-class in egg) but the two plans return different rows: %s vs %s" % (
+                w["rule"], w["lhs"], w["rhs"], rows_key(l["rows"]), rows_key(rr["rows"])),
+                replay={"rule": w["rule"], "witness": w, "lhs_rows": l["rows"], "rhs_rows": rr["rows"], "requests": [wreqs[[q["id"] for q in wreqs].index(wid)]]})
+
     # (C) whole optimizer: on vs off vs custom(exclude known-unsound rules)
     nq = 120 if ck.quick() else 2500
     rng = random.Random(ck.seed * 7919 + 17)
@@ -320,13 +396,30 @@ def run(ck):
             if fn.endswith(".json"):
                 corpus.append(json.load(open(os.path.join(cdir, fn))))
     cases = corpus + cases
+    # hand-built witnesses with their own reference query (an equivalent formulation that can be
+    # run unoptimized), for rules whose left-hand side the executor cannot run unoptimized
+    wq = [c for c in cases if c.get("reference_sql")]
+    cases = [c for c in cases if not c.get("reference_sql")]
+    if wq:
+        wr = run_harness(ck, [{"id": "rw%d" % k, "engine": "mem", "setup": c["setup"], "queries": [
+            {"sql": c["sql"], "opt": "on", "plans": True}, {"sql": c["reference_sql"], "opt": "off"}]} for k, c in enumerate(wq)], "refwit", stages)
+        for k, c in enumerate(wq):
+            a = wr.get("rw%d" % k)
+            r = by_name.get(c.get("witness_for_rule"))
+            if not a or not a["setup_ok"] or len(a["results"]) != 2 or r is None:
+                continue
+            on, ref = a["results"]
+            if on["class"] == "ok" and ref["class"] == "ok" and rows_key(on["rows"]) != rows_key(ref["rows"]):
+                ck.report(r["sig"], "`%s` (optimized; plan %s) returns %s, the equivalent `%s` run unoptimized returns %s" % (
+                    c["sql"], on.get("optimized"), rows_key(on["rows"]), c["reference_sql"], rows_key(ref["rows"])),
+                    replay={"case": c, "on": on, "reference": ref})
     reqs = []
     for k, c in enumerate(cases):
         for eng in ("mem", "disk"):
             reqs.append({"id": "q%d:%s" % (k, eng), "engine": eng, "setup": c["setup"], "queries": [
                 {"sql": c["sql"], "opt": "off", "plans": True}, {"sql": c["sql"], "opt": "on"},
                 {"sql": c["sql"], "opt": "custom", "exclude": known_rule_names},
-                {"sql": c["sql"], "opt": "custom", "exclude": plan_level_names}]})
+                {"sql": c["sql"], "opt": "custom", "exclude": plan_level_names, "plans": True}]})
     # run in parallel chunks
     res = {}
     import concurrent.futures
@@ -364,6 +457,8 @@ def run(ck):
                 ref, refname = (cu2, "custom2") if nl_outer else (cu, "custom")
                 if ref["class"] != "ok":
                     continue
+                if nl_outer and ("(join right_outer" in ref.get("optimized", "") or "(join full_outer" in ref.get("optimized", "")):
+                    continue    # the reference plan still holds a nested-loop outer join: nothing to compare with
             else:
                 ref, refname = off, "off"
             if ref["rows"]:
@@ -372,26 +467,36 @@ def run(ck):
             if cmpf(on["rows"]) == cmpf(ref["rows"]):
                 stats["on_eq_off"] += 1
                 continue
-            # differs: attributable to the known-unsound rules?
-            if refname == "off" and cu["class"] == "ok" and cmpf(cu["rows"]) == cmpf(off["rows"]):
-                # equal again once the rules of the recorded findings are left out: attribute it
-                # to the one finding whose rules alone explain it
-                stats["known_rule_diffs"] += 1
-                culprit = None
+            # differs.  Is it explained by the rules of ONE recorded finding (the answer is the
+            # reference's again once exactly those rules are left out)?
+            explained = (refname != "off") or (cu["class"] == "ok" and cmpf(cu["rows"]) == cmpf(off["rows"]))
+            culprit = None
+            if explained:
                 for sig, ex in kf_excl:
                     one = run_harness(ck, [{"id": "one", "engine": eng, "setup": c["setup"], "queries": [{"sql": c["sql"], "opt": "custom", "exclude": ex}]}], "one%d" % k, stages).get("one")
-                    if one and one["results"] and one["results"][0]["class"] == "ok" and cmpf(one["results"][0]["rows"]) == cmpf(off["rows"]):
+                    if one and one["results"] and one["results"][0]["class"] == "ok" and cmpf(one["results"][0]["rows"]) == cmpf(ref["rows"]):
                         culprit = sig
                         break
-                if culprit:
-                    ck.report(culprit, "optimizer on/off differ on `%s`; equal again without the rule(s) of this finding" % c["sql"], replay={"case": c})
-                else:
-                    ck.known_seen.setdefault("optimizer:combination-of-known-unsound-rules", "on/off differ on `%s`; equal with all known-unsound rules removed" % c["sql"][:120])
+            if culprit:
+                stats["known_rule_diffs"] += 1
+                ck.report(culprit, "optimizer changes the answer of `%s`; the answer is the reference's again without the rule(s) of this finding" % c["sql"],
+                          replay={"case": c, "engine": eng, "reference": refname, "ref": ref, "on": on,
+                                  "requests": [{"id": "replay", "engine": eng, "setup": c["setup"], "queries": [{"sql": c["sql"], "opt": "off", "plans": True}, {"sql": c["sql"], "opt": "on", "plans": True}]}]})
+                continue
+            if explained and refname == "off":
+                stats["known_rule_diffs"] += 1
+                ck.report("optimizer:combination-of-known-unsound-rules", "on/off differ on `%s`; equal with all known-unsound rules removed together" % c["sql"][:160], replay={"case": c, "engine": eng})
                 continue
             stats["new_diffs"] += 1
-            ck.report("opt:on-off-differ:" + vlib.slug(c["sql"])[:60], "optimizer changes the answer of `%s` on %s (not explained by the known-unsound rules)" % (c["sql"], eng),
-                      replay={"case": c, "engine": eng, "off": off, "on": on, "custom": cu,
+            ck.report("opt:on-off-differ:" + vlib.slug(c["sql"])[:60], "optimizer changes the answer of `%s` on %s (reference: %s; not explained by any recorded finding)" % (c["sql"], eng, refname),
+                      replay={"case": c, "engine": eng, "reference": refname, "ref": ref, "off": off, "on": on, "custom": cu,
                               "requests": [{"id": "replay", "engine": eng, "setup": c["setup"], "queries": [{"sql": c["sql"], "opt": "off", "plans": True}, {"sql": c["sql"], "opt": "on", "plans": True}]}]})
+    # every refuted plan rule must have been reproduced on the implementation (corpus cases do that)
+    for r in prefuted:
+        sigs = [f["sig"] for f in ck.known.values() if f["property"] == "C01" and r["name"] in (f.get("exclude_rules") or [])]
+        if not any(sg in ck.known_seen for sg in sigs) and not any(v[0] in sigs for v in ck.violations):
+            ck.report("refuted-not-reproduced:" + r["id"], "punsound_%s is proved in the model but no generated or corpus query reproduces it on the implementation" % r["id"],
+                      replay={"theorem": "punsound_" + r["id"], "rule": r["sig"]}, found_input=False)
     ck.coverage.update({
         "evaluations": n_eval + stats["runs"],
         "distinct_nontrivial": len(distinct) + len(meta),
@@ -399,6 +504,7 @@ def run(ck):
         "samples": [c["sql"] for c in cases[:6]] + drv_lines[:3],
         "model_vs_impl": {"compared": n_eval, "disagree": n_mism},
         "impl_vs_oracle": {"rule_sides_compared": n_eval, "rule_sides_differ": n_rule_diff, "optimizer": stats},
+        "single_rule_witnesses_run": n_wit,
         "rules_in_source": len(rules), "expression_rule_instantiations": len(insts),
         "known_unsound_rules_excluded_in_custom_mode": known_rule_names,
         "notes": ck.notes[:20],
